@@ -28,7 +28,7 @@ import (
 )
 
 type Event struct {
-	Kind string `json:"kind"` // add | stop | start | snapshot | transfer | backup | rebuild
+	Kind string `json:"kind"` // add | stop | start | snapshot | transfer | backup | rebuild | bounce0
 	K    int    `json:"n,omitempty"`
 }
 
@@ -324,10 +324,33 @@ func run(base string, sc Scenario) (res Result) {
 				if strings.Contains(err.Error(), "address already in use") {
 					return fail("the follower's port was taken by another process while it was down")
 				}
+				if strings.Contains(err.Error(), "lock hold by current process") {
+					// the three nodes share one process here: a database handle of the stopped instance
+					// that is still being released is an artefact of that, a real restart is a new process
+					return fail("the stopped instance still holds a database lock in this process")
+				}
 				res.Problems = append(res.Problems, "a stopped follower does not start again on its data: "+err.Error())
 				return res
 			}
 			down = -1
+		case "bounce0":
+			// the node that bootstrapped the cluster is stopped and started again with the same flags
+			if down >= 0 {
+				return fail("bounce0: a node is already down")
+			}
+			if !converge("before the seed node is restarted") {
+				return res
+			}
+			if err := ms[0].stop(); err != nil {
+				res.Problems = append(res.Problems, "the seed node cannot be stopped cleanly: "+err.Error())
+			}
+			if err := ms[0].start(true, nil, sc.TrailingLogs); err != nil {
+				if strings.Contains(err.Error(), "address already in use") || strings.Contains(err.Error(), "lock hold by current process") {
+					return fail("the seed node could not be restarted in this process: " + err.Error())
+				}
+				res.Problems = append(res.Problems, "the seed node does not start again on its data: "+err.Error())
+				return res
+			}
 		case "backup":
 			ld := leader()
 			if ld == nil {
